@@ -709,6 +709,76 @@ def must_call(ctx, res, fn, callee_attr, rule, wording, module=None):
     return ok
 
 
+def r156_tolerance_power(ctx, res):
+    """R15.6: a length is compared with the tolerance, a squared length with the squared tolerance.  `dv.length() < eps ** 2`
+    accepts every direction longer than 1e-20: the zero-length test is there in form only."""
+    n = 0
+    seen_fn = set()
+    for ob in EXPLICIT:
+        try:
+            fi = ctx.repo.fn(ob.fn, ob.module) if getattr(ob, "module", None) else ctx.repo.fn(ob.fn)
+        except Exception:
+            fi = None
+        if fi is None or fi.qual in seen_fn:
+            continue
+        seen_fn.add(fi.qual)
+
+        def eps_power(e):
+            if isinstance(e, ast.Call) and isinstance(e.func, ast.Name) and e.func.id == "get_eps":
+                return 1
+            if isinstance(e, ast.Name) and e.id in ("eps", "tol", "tolerance"):
+                return 1
+            if isinstance(e, ast.BinOp) and isinstance(e.op, ast.Pow) and const_num_(e.right) is not None:
+                b_ = eps_power(e.left)
+                return None if b_ is None else b_ * const_num_(e.right)
+            if isinstance(e, ast.BinOp) and isinstance(e.op, ast.Mult):
+                l_, r_ = eps_power(e.left), eps_power(e.right)
+                if l_ is not None and r_ is not None:
+                    return l_ + r_
+                if l_ is not None and const_num_(e.right) is not None:
+                    return l_
+                if r_ is not None and const_num_(e.left) is not None:
+                    return r_
+            return None
+
+        def len_power(e):
+            if isinstance(e, ast.Call) and isinstance(e.func, ast.Attribute) and e.func.attr == "length" and not e.args:
+                return 1
+            if isinstance(e, ast.Call) and isinstance(e.func, ast.Name) and e.func.id == "abs" and len(e.args) == 1:
+                return len_power(e.args[0])
+            if isinstance(e, ast.BinOp) and isinstance(e.op, ast.Pow) and const_num_(e.right) is not None:
+                b_ = len_power(e.left)
+                return None if b_ is None else b_ * const_num_(e.right)
+            if isinstance(e, ast.BinOp) and isinstance(e.op, ast.Mult) and txt(e.left) == txt(e.right) \
+                    and {str(t) for t in ctx.types.types_at(fi, e.left) if not isinstance(t, tuple)} == {"Vector"}:
+                return 2  # v * v: the squared length
+            return None
+
+        for c in walk_local(fi.node):
+            if not (isinstance(c, ast.Compare) and len(c.ops) == 1 and isinstance(c.ops[0], (ast.Lt, ast.LtE, ast.Gt, ast.GtE))):
+                continue
+            for q_, t_ in ((c.left, c.comparators[0]), (c.comparators[0], c.left)):
+                pe, pl = eps_power(t_), len_power(q_)
+                if pe is None or pl is None:
+                    continue
+                n += 1
+                ok = pe == pl
+                res.ob("R15.6", fi.where(c), "%s: `%s`" % (fi.short, txt(c)[:50]), ok,
+                       "length to the power %s against the tolerance to the power %s" % (pl, pe))
+                if not ok:
+                    res.violation("R15.6", fi, c, "%s compares a length to the power %s with the tolerance to the power %s (`%s`): the two sides "
+                                  "of the zero-length test are in different units, so the test rejects almost nothing (or far too much) -- "
+                                  "a degenerate object within the tolerance is returned" % (fi.short, pl, pe, txt(c)[:60]),
+                                  construct="%s: tolerance power `%s`" % (fi.short, txt(c)[:40]))
+    if n == 0:
+        res.note("no zero-length test of the form length <op> tolerance in the validated constructors; R15.6 has no instance")
+
+
+def const_num_(e):
+    from ..astutil import const_num
+    return const_num(e)
+
+
 def r155_vertex_merging(ctx, res):
     """R15.5: 'a polygon with fewer than three distinct vertices' is rejected because repeated vertices are merged before the
     first three stored vertices define the plane (the shortened list then fails).  The value stored into self.points must
@@ -1128,6 +1198,7 @@ def run(ctx, res):
     r153_raise_not_return(ctx, res)
     r154_definite_assignment(ctx, res)
     r155_vertex_merging(ctx, res)
+    r156_tolerance_power(ctx, res)
     # informational: comparisons of a bound method with a constant can never fire
     seen = set()
     for q, ln, text in ctx.types.anomalies:
